@@ -389,6 +389,57 @@ def r13_7(ctx):
         ctx.bad("R13.7", fi.module, fi.qual, "self.mailbox.set_sequences(<the caller's sets only>)", "the writer of .mh_sequences hands MH exactly the in-memory flag sets: the `unseen` entry an MH agent recorded for a message delivered since the server last read the folder is erased, and the next resync announces that message as \\Seen (STORE, APPEND, EXPUNGE, COPY all write this way)", writes[0].lineno)
 
 
+def r13_8(ctx):
+    """set_sequences_in_folder() keeps the folder's own entries for every message the mailbox does not know (R13.7) - "know"
+    meaning `msg_keys` at the moment of the call.  So wherever a function both changes a mailbox's `msg_keys` and writes that
+    mailbox's sequences, the write comes after the last change: written earlier, the numbers the function is about to give up
+    (RENAME INBOX, a reset) still count as the mailbox's own, and what an MH agent has just recorded for a message that
+    re-used one of them is erased; numbers it is about to take in are not protected yet."""
+    p = ctx.p
+    n = 0
+    for fi in p.funcs_in("mbox"):
+        writes = [c for c in calls_in(fi.node) if call_name(c) == "set_sequences_in_folder" and call_recv(c) is not None]
+        if not writes or fi.name == "set_sequences_in_folder":
+            continue
+        if fi.name == "_pack_if_necessary":
+            # the pack protocol (R3.5) writes the sequences, lets MH renumber files and sequences, then re-reads both
+            continue
+        g = None
+        for c in writes:
+            recv = norm(call_recv(c))
+            changes = []
+            for s_ in body_walk(fi.node):
+                if isinstance(s_, ast.Assign) and any(norm(t) == f"{recv}.msg_keys" for t in s_.targets):
+                    changes.append(s_)
+                elif isinstance(s_, ast.Expr) and isinstance(s_.value, ast.Call) and call_name(s_.value) in ("extend", "append", "clear", "remove", "pop") and norm(call_recv(s_.value)) == f"{recv}.msg_keys":
+                    changes.append(s_)
+                elif isinstance(s_, ast.Delete) and any(isinstance(t, ast.Subscript) and norm(t.value) == f"{recv}.msg_keys" for t in s_.targets):
+                    changes.append(s_)
+            if not changes:
+                continue
+            g = g or ctx.cfg(fi)
+            ctx.analysed(fi)
+            wn = [x.id for x in g.nodes if x.ast is not None and x.kind == "stmt" and any(y is c for y in ast.walk(x.ast))]
+            ctx.require(wn, f"{fi.qual}: CFG node of the sequences write not found")
+            all_w = {x.id for x in g.nodes if x.ast is not None and x.kind == "stmt" and any(call_name(y) == "set_sequences_in_folder" and norm(call_recv(y) or ast.Name("")) == recv for y in calls_in(x.ast))}
+            n += 1
+            late = None
+            for ch in changes:
+                cn = [x for x in g.nodes_for(ch) if g.nodes[x].kind == "stmt"]
+                if not cn:
+                    continue
+                # a change of msg_keys that is reached from this write without another write in between
+                after = flow.reach(g, [e.dst for e in g.out[wn[0]] if e.label in flow.NORMAL], flow.NORMAL, avoid=lambda x: x in all_w and x != wn[0])
+                loops_back = wn[0] in flow.reach(g, [e.dst for e in g.out[cn[0]] if e.label in flow.NORMAL], flow.NORMAL)
+                if cn[0] in after and not loops_back:
+                    late = ch
+            if late is not None:
+                ctx.bad("R13.8", fi.module, fi.qual, f"{norm(c, 60)} before {norm(late, 50)}", f".mh_sequences of `{recv}` is written before `{norm(late, 50)}`: the writer still takes the old message numbers for the mailbox's own, so the `unseen` entry an MH agent records for a message that re-uses one of them in that window is erased (the new mail shows up as \\Seen)", c.lineno)
+            else:
+                ctx.ok("R13.8", where(fi), f"{recv}: .mh_sequences is written after the last change of its msg_keys")
+    ctx.floor("R13.8", n, 2, "functions that change msg_keys and write .mh_sequences")
+
+
 def run(ctx):
     ctx.do(r13_1)
     ctx.do(r13_2)
@@ -397,6 +448,7 @@ def run(ctx):
     ctx.do(r13_5)
     ctx.do(r13_6)
     ctx.do(r13_7)
+    ctx.do(r13_8)
     from . import c10
     ctx.do(c10.r10_7)
     from . import c02 as _c02
@@ -404,6 +456,8 @@ def run(ctx):
     from . import c04 as _c04
     ctx.do(_c04.r4_3)  # Seen / unseen stay complements through every flag helper
     ctx.do(_c04.r4_11)  # .mh_sequences stays readable: no flag name breaks its line format
+    from . import c12 as _c12b
+    ctx.do(_c12b.r12_5)  # flag rows of removed messages do not survive in the database
     ctx.note("periodic poll liveness (clean-up before the emptiness test of executing_tasks) is decided by C10 R10.7")
     for k, v in WRITEBACK_EXEMPT.items():
         ctx.trust(f"frozen write-back exemption: {k} - {v}")
